@@ -6,8 +6,9 @@ from gambatools.pda import PDA
 
 def mk_pda(spec):
     delta = defaultdict(set)
+    from bridge.fa import fresh
     for p, a, u, q, v in spec["d"]:
-        delta[p, a, u].add((q, v))
+        delta[fresh(p), fresh(a), fresh(u)].add((fresh(q), fresh(v)))
     return PDA(set(spec["Q"]), set(spec["S"]), set(spec["G"]), delta, spec["q0"], set(spec["F"]), spec["eps"])
 
 
